@@ -40,7 +40,9 @@ def gen_case(rng, maxlen=6, kind=None):
                        else AL.gen_scorer(rng, alpha)),
             "normalized": rng.random() < 0.5,
             "resA": [rng.choice("cv") for _ in sa], "resB": [rng.choice("cv") for _ in sb],
-            "wrapper": rng.random() < 0.7}
+            "wrapper": rng.random() < 0.7,
+            # wrappers only: this letter is handed over as a BLANK (a legal symbol of a string, tuple or list)
+            "blank": rng.choice(alpha) if rng.random() < 0.3 else None}
     return case
 
 
@@ -55,12 +57,24 @@ def run_impl(case):
     kind = case["kind"]
     scorer = {k: float(v) for k, v in case["scorer"].items()}
     gap = float(case["gap"])
+    bl = case.get("blank") if case["wrapper"] else None
+    to_b = lambda x: " " if x == bl else x
+    unb = lambda row: [bl if x == " " else x for x in row]
+    if bl:
+        sa, sb = [to_b(x) for x in sa], [to_b(x) for x in sb]
+        scorer = {(to_b(a), to_b(b)): v for (a, b), v in scorer.items()}
     if kind in ("nw", "sw", "we"):
         if case["wrapper"]:
             f = getattr(pw, kind + "_align")
             # the wrappers accept strings, tuples or lists
             a, b = ("".join(sa), "".join(sb)) if case["default_scorer"] else (tuple(sa), tuple(sb))
             out = f(a, b) if case["default_scorer"] else f(a, b, scorer=scorer, gap=gap)
+            if bl and kind == "nw":
+                out = (unb(out[0]), unb(out[1]), out[2])
+            elif bl and kind == "sw":
+                out = (tuple(unb(p) for p in out[0]), tuple(unb(p) for p in out[1]), out[2])
+            elif bl:
+                out = [(unb(x), unb(y), z) for x, y, z in out]
         else:
             out = getattr(malign, kind + "_align")(sa, sb, scorer, gap)
         if kind == "nw":
